@@ -108,6 +108,16 @@ def build_state(rng, b, lgk, cls, seed):
         rng.shuffle(cells)
         for rc in cells: b.ops.append([3, r, rc])
         return r
+    if cls == 'biggap':
+        # every coupon in the top half of the rows (and one in the last row): with n > 256 pairs the Golomb unary part of the first
+        # pair's row delta is >= 256 (a reader that accumulates the unary count in 8 bits shifts the rows)
+        r, sim = b.new_sketch(lgk, seed)
+        n = {10: 300, 12: 320, 13: 600}.get(lgk, 3 * k // 40)
+        cells = set([((k - 1) << 6) | 0])
+        while len(cells) < n:
+            cells.add(((k // 2 + rng.randrange(k // 2)) << 6) | min(63, C05.geometric(rng)))
+        for rc in sorted(cells, key=lambda x: rng.random()): b.ops.append([3, r, rc])
+        return r
     if cls == 'sliding_nt':
         # column-major fill: the early zone is full and nothing lies beyond the window
         r, sim = b.new_sketch(lgk, seed)
@@ -185,8 +195,8 @@ def probe_ops(r):
 
 def gen_c09(rng, tier):
     cases = []
-    for lgk in lgks(tier):
-        for cls in CLASSES:
+    for lgk in sorted(set(lgks(tier) + [10, 12, 13])):
+        for cls in (CLASSES if lgk in lgks(tier) else []) + (['biggap'] if lgk in (10, 12, 13) else []):
             for rep in range(1 if tier == 'quick' else 3):
                 if lgk > 9 and cls in ('sliding_t', 'sliding_nt', 'merged') and rep: continue
                 if cls == 'worstwin' and lgk > 6: continue
